@@ -82,19 +82,31 @@ Fixpoint split_once_str (p s : str) : option (str * str) :=
       end
   end.
 
-(* fn super_depth(import): number of "super." occurrences and the text after the last one.
-   None = fuel exhausted (cannot happen with fuel = length + 1: every round drops >= 6 bytes). *)
-Fixpoint super_depth_go (fuel : nat) (s : str) (cnt : nat) (suffix : option str)
+(* fn super_depth(import): only whole leading `super.` prefixes count; returns their number and, when
+   there is at least one, the rest of the path.
+   None = fuel exhausted (cannot happen with fuel = length + 1: every round drops 6 bytes). *)
+Fixpoint super_depth_go (fuel : nat) (s : str) (cnt : nat) : option (nat * option str) :=
+  match fuel with
+  | O => None
+  | S f =>
+      match strip_prefix s_super_dot s with
+      | Some post => super_depth_go f post (S cnt)
+      | None => Some (cnt, match cnt with O => None | S _ => Some s end)
+      end
+  end.
+Definition super_depth (s : str) := super_depth_go (S (length s)) s O.
+(* super_depth before the repair of N-C08-1: every occurrence of the substring "super." counted *)
+Fixpoint super_depth_legacy_go (fuel : nat) (s : str) (cnt : nat) (suffix : option str)
   : option (nat * option str) :=
   match fuel with
   | O => None
   | S f =>
       match split_once_str s_super_dot s with
-      | Some (_, post) => super_depth_go f post (S cnt) (Some post)
+      | Some (_, post) => super_depth_legacy_go f post (S cnt) (Some post)
       | None => Some (cnt, suffix)
       end
   end.
-Definition super_depth (s : str) := super_depth_go (S (length s)) s O None.
+Definition super_depth_legacy (s : str) := super_depth_legacy_go (S (length s)) s O None.
 
 Definition ascii_alnum (b : N) : bool :=
   ((48 <=? b) && (b <=? 57)) || ((65 <=? b) && (b <=? 90)) || ((97 <=? b) && (b <=? 122)).
@@ -710,7 +722,8 @@ Definition resolve_function (fname : str) : M fmeta :=
                     match take_ns ns cnt (cs_debug s) with
                     | None => error ESuperLimitReached
                     | Some ns' =>
-                        ret (sm_find (ns_prefix ns' ++ alias ++ c_dot :: match sx with Some x => x | None => suffix end) jt)
+                        (* [s.unwrap_or(alias), ".", suffix] *)
+                        ret (sm_find (ns_prefix ns' ++ match sx with Some x => x | None => alias end ++ c_dot :: suffix) jt)
                     end
                 end
             end
